@@ -1005,6 +1005,270 @@ def w_call_history(item, seed=0, depth=2):
     return t
 
 
+# ----------------------------------------------------------------------------- G. spellings: one shift, every legal way of writing it
+# The parts above always spell a shift as a contiguous float tensor/array of shape (N,2) and the data as a contiguous complex array. Here the
+# SPELLING of the arguments is the lattice: dtype (int64/int32/int16/uint8/float16/float32/float64), container (tensor, ndarray, list, tuple,
+# tensor data with ndarray positions and vice versa), shape ((N,2), (1,2), (2,)), layout (contiguous, transposed, strided, expanded,
+# requires_grad) of the positions; dtype (complex64/128, float32/64) and layout (contiguous, transposed view, 2-D, 4-D) of the data; for every
+# shifting entry point (fourier_shift_expand, fourier_translation_operator, ProbePixelated.forward, forward_operator with descan shifts).
+# A spelling the library rejects is counted; an accepted spelling must give the answer of the canonical spelling (float32 (N,2) positions,
+# complex128 data, same values) up to dtype round-off, a circular roll for integer values, the same total intensity, a unit-modulus ramp, and
+# must compose with a fractional shift.
+POS_DTYPES = ["int64", "int32", "int16", "uint8", "float16", "float32", "float64"]
+VALUE_SETS = {
+    "int": [[2, -3], [-1, 4], [0, 0]],
+    "uint": [[2, 3], [1, 4], [0, 0]],
+    "quarter": [[0.25, -0.5], [1.75, 0.5], [-2.25, 0.0]],  # exactly representable in float16
+    "generic": [[0.3, 0.7], [-1.3, 2.6], [0.05, -0.95]],  # float16 rounds these: see TOL_F16
+}
+# float16 positions: the shift itself is rounded to 11 bits (relative 4.9e-4). Worst deviation from the float32 spelling on the unchanged tree
+# (generic values, all ROI shapes, seeds {0,1,2,7,12345}): 1.2e-3 of the maximum -> TOL_F16 = 2.5e-2 (21x). The seeded frequency-grid change makes
+# float16 positions raise and integer-dtype positions return the unshifted array (deviation O(1) >= 40x TOL_F16). Every other spelling: <= 2.9e-7 -> TOL.
+TOL_F16 = 2.5e-2
+
+
+def spellings(impl, quick=True):
+    """Every spelling descriptor for data of kind `impl` (torch tensor / NumPy array). JSON-able dicts."""
+    native = "tensor" if impl == "torch" else "ndarray"
+    out = []
+
+    def add(**kw):
+        d = {"impl": impl, "entry": "fourier_shift_expand", "container": native, "pos_dtype": "float32", "values": "quarter", "shape": "N2", "layout": "contiguous", "array_dtype": "complex128", "array_layout": "contiguous"}
+        d.update(kw)
+        out.append(d)
+
+    for dt in POS_DTYPES:
+        vsets = ["uint"] if dt == "uint8" else (["int"] if dt.startswith("int") else ["int", "quarter", "generic"])
+        for vs in vsets:
+            for shape in ("N2", "12", "2"):
+                for layout in ("contiguous", "transposed", "strided", "expanded", "requires_grad"):
+                    if layout == "requires_grad" and (impl != "torch" or not dt.startswith("float")):
+                        continue
+                    if shape == "2" and layout != "contiguous":
+                        continue
+                    add(pos_dtype=dt, values=vs, shape=shape, layout=layout)
+            for entry in ("fourier_translation_operator",) + (("ProbePixelated.forward", "forward_operator descan") if impl == "torch" else ()):
+                add(entry=entry, pos_dtype=dt, values=vs)
+    for container, dts in (("list", ["int", "float"]), ("tuple", ["int", "float"]), ("cross", ["float32", "int64", "float64"])):
+        for dt in dts:
+            for shape in ("N2", "12", "2"):
+                add(container=container, pos_dtype=dt, values="int" if dt.startswith("int") else "quarter", shape=shape)
+    for adt in ("complex64", "complex128", "float32", "float64"):
+        for alay in ("contiguous", "transposed_view", "2d", "4d"):
+            for dt in ("float32", "int64", "float16"):
+                for vs in ("int", "quarter") if dt != "int64" else ("int",):
+                    if adt == "complex128" and alay == "contiguous":
+                        continue  # the positions family above
+                    add(array_dtype=adt, array_layout=alay, pos_dtype=dt, values=vs)
+    return out
+
+
+def spelling_key(sp):
+    """Coarse class of a spelling (used for failure classes and for the per-spelling counters)."""
+    if sp["array_dtype"].startswith("float"):
+        return "array_real_dtype"
+    if sp["container"] in ("list", "tuple"):
+        return "positions_python_" + sp["container"]
+    if sp["container"] == "cross":
+        return "positions_other_array_library"
+    if sp["shape"] == "2":
+        return "positions_shape_(2,)"
+    if sp["layout"] != "contiguous":
+        return "positions_" + sp["layout"]
+    if sp["array_layout"] != "contiguous" or sp["array_dtype"] != "complex128":
+        return "array_" + (sp["array_layout"] if sp["array_layout"] != "contiguous" else sp["array_dtype"])
+    if sp["pos_dtype"] == "float16":
+        return "positions_float16"
+    return "positions_integer_dtype" if sp["pos_dtype"].startswith(("int", "uint")) else "positions_" + sp["pos_dtype"]
+
+
+def make_positions(sp, lib):
+    """The shift vectors of a spelling as the object handed to the library; lib = "torch" | "numpy" decides tensor vs ndarray."""
+    torch = _torch()
+    vals = VALUE_SETS[sp["values"]]
+    vals = vals if sp["shape"] == "N2" else vals[:1]
+    if sp["layout"] == "expanded":
+        vals = vals[:1]
+    if sp["container"] in ("list", "tuple"):
+        conv = (lambda v: int(v)) if sp["pos_dtype"] == "int" else (lambda v: float(v))
+        rows = [[conv(a), conv(b)] for a, b in vals]
+        obj = rows if sp["shape"] != "2" else rows[0]
+        return obj if sp["container"] == "list" else (tuple(tuple(r) for r in obj) if sp["shape"] != "2" else tuple(obj))
+    a = np.asarray(vals, dtype=np.float64)
+    dt = sp["pos_dtype"]
+    if sp["layout"] == "transposed":
+        base = np.ascontiguousarray(a.T).astype(dt)
+        obj = torch.tensor(base).T if lib == "torch" else base.T
+    elif sp["layout"] == "strided":
+        filler = np.full_like(a, 7.0)
+        base = np.stack([a, filler], axis=1).reshape(-1, 2).astype(dt)
+        obj = torch.tensor(base)[::2] if lib == "torch" else base[::2]
+    elif sp["layout"] == "expanded":
+        base = a.astype(dt)
+        obj = torch.tensor(base).expand(3, 2) if lib == "torch" else np.broadcast_to(base, (3, 2))
+    else:
+        base = a.astype(dt)
+        obj = torch.tensor(base) if lib == "torch" else base
+        if sp["layout"] == "requires_grad":
+            obj.requires_grad_(True)
+    if sp["shape"] == "2":
+        obj = obj[0]
+    return obj
+
+
+def spelled_values(sp):
+    vals = VALUE_SETS[sp["values"]]
+    vals = vals if sp["shape"] == "N2" else vals[:1]
+    if sp["layout"] == "expanded":
+        vals = vals[:1] * 3
+    return [[float(a), float(b)] for a, b in vals]
+
+
+def make_data(sp, roi, seed):
+    """(object handed to the library, the same data as a contiguous complex128/float64 ndarray)."""
+    torch = _torch()
+    R, C = roi
+    rng = np.random.default_rng([seed, 16, 9, R, C])
+    x = rng.normal(size=(3, 2, R, C)) + 1j * rng.normal(size=(3, 2, R, C))
+    x = {"contiguous": x[0], "transposed_view": x[0], "2d": x[0, 0], "4d": x}[sp["array_layout"]]
+    x = (x if sp["array_dtype"].startswith("complex") else x.real).astype(sp["array_dtype"])
+    if sp["array_layout"] == "transposed_view":
+        xt = np.ascontiguousarray(np.swapaxes(x, -1, -2))
+        obj = torch.tensor(xt).transpose(-1, -2) if sp["impl"] == "torch" else np.swapaxes(xt, -1, -2)
+    else:
+        obj = torch.tensor(x) if sp["impl"] == "torch" else x
+    return obj, x.astype(np.complex128 if sp["array_dtype"].startswith("complex") else np.float64)
+
+
+def _np(a):
+    torch = _torch()
+    return a.detach().numpy() if isinstance(a, torch.Tensor) else np.asarray(a)
+
+
+_SPELL_MODELS = {}
+
+
+def _spell_models(roi, seed):
+    """One probe model and one single-slice reconstruction object per ROI shape and worker (public API, seeded)."""
+    key = (tuple(roi), int(seed))
+    if key not in _SPELL_MODELS:
+        from quantem.diffractive_imaging.probe_models import ProbePixelated
+
+        rng = np.random.default_rng([seed, 16, 10, roi[0], roi[1]])
+        prb = (rng.normal(size=(2, *roi)) + 1j * rng.normal(size=(2, *roi))).astype(np.complex64)
+        with library("ProbePixelated.from_array"):
+            pm = ProbePixelated.from_array(prb, probe_params={"energy": 80e3}, rng=int(seed) + 21)
+        _SPELL_MODELS[key] = (pm, build(tuple(roi), 1, 2, "complex", 80e3, (0.0, 0.0), seed))
+    return _SPELL_MODELS[key]
+
+
+def call_entry(sp, roi, data, pos, seed):
+    """Run one shifting entry point with the given data / positions objects. Returns an ndarray."""
+    torch = _torch()
+    from quantem.diffractive_imaging.ptycho_utils import fourier_shift_expand, fourier_translation_operator
+
+    e = sp["entry"]
+    if e == "fourier_shift_expand":
+        return _np(fourier_shift_expand(data, pos))
+    if e == "fourier_translation_operator":
+        return _np(fourier_translation_operator(pos, tuple(roi)))
+    pm, pt = _spell_models(roi, seed)
+    with torch.no_grad():
+        if e == "ProbePixelated.forward":
+            return _np(pm.forward(pos))
+        n = len(pos)
+        probes = torch.tensor(np.broadcast_to(_np(pm.probe)[:, None], (2, n, *roi)).copy())
+        patches = torch.ones(1, n, *roi, dtype=torch.complex64)
+        return _np(pt.forward_operator(patches, probes, pos)[1])
+
+
+def judge_spelling(t, roi, sp, seed):
+    torch = _torch()
+    roi = tuple(roi)
+    key = spelling_key(sp)
+    case = {"kind": "spelling", "roi": list(roi), "spelling": sp}
+    lib_pos = sp["impl"] if sp["container"] != "cross" else ("numpy" if sp["impl"] == "torch" else "torch")
+    data, xref = make_data(sp, roi, seed)
+    vals = spelled_values(sp)
+    canon_sp = dict(sp, container="tensor" if sp["impl"] == "torch" else "ndarray", pos_dtype="float32", shape="N2" if sp["shape"] == "N2" else "12", layout="contiguous", array_dtype="complex128" if sp["array_dtype"].startswith("complex") else "complex128", array_layout=sp["array_layout"] if sp["array_layout"] != "transposed_view" else "contiguous")
+    canon_sp["values"] = sp["values"]
+    cdata = torch.tensor(xref.astype(np.complex128)) if sp["impl"] == "torch" else xref.astype(np.complex128)
+    cpos_np = np.asarray(vals, dtype=np.float32)
+    cpos = torch.tensor(cpos_np) if sp["impl"] == "torch" else cpos_np
+    with library("canonical spelling"):
+        ref = call_entry(canon_sp, roi, cdata, cpos, seed)
+    if sp["array_dtype"].startswith("float") and sp["entry"] == "fourier_shift_expand":
+        ref = ref.real  # a real array shifted = the real part of the complex result
+    pos = make_positions(sp, lib_pos)
+    pos_copy = None if not hasattr(pos, "shape") else _np(pos).copy()
+    try:
+        got = call_entry(sp, roi, data, pos, seed)
+    except Exception as e:  # rejected spelling: counted per spelling class, never flagged
+        t.extra["rejected_" + key] += 1
+        t.extra["rejected_by_" + type(e).__name__] += 1
+        t.case(key=case, nontrivial=False, outcome=["rejected", key, type(e).__name__])
+        return
+    t.extra["accepted_" + key] += 1
+    t.case(key=case, nontrivial=True, outcome=["accepted", key])
+    cls = {"spelling": key, "entry": sp["entry"]}
+    where = f"{sp['entry']} roi={roi} data {sp['impl']} {sp['array_dtype']} {sp['array_layout']}, positions {sp['container']} {sp['pos_dtype']} {sp['layout']} shape {sp['shape']} values {vals}"
+    if got.shape != ref.shape:
+        if got.size != ref.size:
+            t.fail({"relation": "shift_spelling_matches_canonical", **cls}, case, f"{where}: result has shape {got.shape}, the canonical spelling gives {ref.shape}")
+            return
+        got = got.reshape(ref.shape)
+    sc = max(float(np.abs(ref).max()), 1e-30)
+    tol = TOL_F16 if (sp["pos_dtype"] == "float16" and sp["values"] == "generic") else TOL
+    d = float(np.abs(got - ref).max()) / sc
+    t.stat("spelling_vs_canonical_dev_" + ("float16_generic" if tol == TOL_F16 else ("real_array" if key == "array_real_dtype" else "other")), d)
+    if not np.isfinite(got).all() or d > tol:
+        t.fail({"relation": "shift_spelling_matches_canonical", **cls}, case, f"{where}: differs from the canonical spelling (float32 (N,2) positions, complex128 data, same values) by {d:.3g} of the maximum (tol {tol:g})")
+        if key == "array_real_dtype":
+            return  # one class for the real-array defect; the identities below would only repeat it
+    if pos_copy is not None and not np.array_equal(_np(pos), pos_copy):
+        t.fail({"relation": "inputs_unmodified", **cls}, case, f"{where}: the positions object was modified")
+    if sp["entry"] == "fourier_translation_operator":
+        e = float(np.abs(np.abs(got) - 1).max())
+        if e > TOL:
+            t.fail({"relation": "translation_ramp_unit_modulus", **cls}, case, f"{where}: | |ramp| - 1 | = {e:.3g}")
+        return
+    if sp["entry"] != "fourier_shift_expand" or key == "array_real_dtype":
+        return
+    integer = sp["values"] in ("int", "uint")
+    x128 = xref.astype(np.complex128)
+    for i, v in enumerate(vals):
+        en = float(np.sum(np.abs(got[i]) ** 2) / np.sum(np.abs(x128) ** 2))
+        if abs(en - 1) > max(tol, TOL):
+            t.fail({"relation": "shift_preserves_intensity", **cls}, case, f"{where}: total intensity ratio {en:.6g} for shift {v}")
+        if integer:
+            e = float(np.abs(got[i] - np.roll(x128, (int(v[0]), int(v[1])), axis=(-2, -1))).max()) / sc
+            if e > TOL:
+                t.fail({"relation": "integer_shift_is_roll", **cls}, case, f"{where}: shift {v} differs from np.roll by {e:.3g} of the maximum")
+                break
+    if integer and len(vals) >= 1 and sp["array_layout"] in ("contiguous", "transposed_view"):
+        # composition: the spelled integer shift, then a canonical fractional shift, equals the canonical combined shift
+        b = [0.25, 0.5]
+        step = torch.tensor(got[0]) if sp["impl"] == "torch" else got[0]
+        mk = (lambda v: torch.tensor(np.asarray([v], dtype=np.float32))) if sp["impl"] == "torch" else (lambda v: np.asarray([v], dtype=np.float32))
+        with library("canonical spelling"):
+            two = call_entry(canon_sp, roi, step, mk(b), seed)[0]
+            one = call_entry(canon_sp, roi, cdata, mk([vals[0][0] + b[0], vals[0][1] + b[1]]), seed)[0]
+        e = float(np.abs(two - one).max()) / sc
+        if e > TOL:
+            t.fail({"relation": "shift_additive", **cls}, case, f"{where}: shift {vals[0]} followed by shift {b} differs from the combined shift by {e:.3g}")
+
+
+@guarded
+def w_spelling(item, seed=0, quick=True):
+    roi, impl = item
+    t = Tally()
+    sps = spellings(impl, quick)
+    for sp in sps:
+        judge_spelling(t, tuple(roi), sp, seed)
+    t.sample({"kind": "spelling", "roi": list(roi), "impl": impl, "spellings": len(sps)}, cap=2)
+    return t
+
+
 # ----------------------------------------------------------------------------- driver
 GEOMS = ["single_interior", "raster_interior", "raster_wrap", "repeated_patch", "tight_object", "object_smaller_than_roi", "library_raster"]
 
@@ -1032,6 +1296,9 @@ def run(ctx):
         "modules would break isinstance relations between them); histories are bounded at two (thorough: three) calls of a 27-call alphabet built to collide on coarse cache keys (equal axis lengths with "
         "different samplings, equal shapes with different data); in the history part the propagator kernel IS judged against the closed-form Fresnel kernel (1e-4), because a propagator built with another "
         "model's sampling still satisfies every group identity",
+        "argument spellings: the canonical spelling of a shift is a contiguous float32 (N,2) tensor/array with complex128 data; every other accepted spelling must agree with it within 1e-5 of the maximum "
+        "(float16 positions holding values that float16 rounds: 2.5e-2, 21x the 1.2e-3 measured on the unchanged tree); a spelling the library rejects (Python lists/tuples, positions of shape (2,), NumPy data with "
+        "torch positions on the unchanged tree) is counted per spelling class (count_rejected_*), never flagged, so a change that turns an accepted spelling into an exception shows only in those counters",
         "the closed-form Fresnel kernel is compared for information only (max_fresnel_kernel_dev), kernel values are the subject of C02",
     )
 
@@ -1077,6 +1344,22 @@ def run(ctx):
     fitems = [(roi, S, M, ot, e, x) for roi in rois2 for S in (1, 2, 3, 4) for M in (1, 2, 3) for ot in ("pure_phase", "potential") for e, x in et]
     ctx.pmap(w_forward, fitems, chunk=2, label="pure-phase intensity conservation", seed=ctx.seed)
     ctx.pmap(w_proj, list(itertools.product(rois2, [1, 2, 3])), chunk=1, label="Fourier projection", seed=ctx.seed, nseeded=2 if q else 6)
+    sp_rois = [(7, 10), (6, 6)] if q else ROIS + ROIS_EXTRA
+    ctx.coverage["alphabet"]["spellings"] = {
+        "roi": [list(r) for r in sp_rois],
+        "position_dtypes": POS_DTYPES,
+        "position_containers": ["tensor", "ndarray", "list", "tuple", "other array library than the data"],
+        "position_shapes": ["(N,2)", "(1,2)", "(2,)"],
+        "position_layouts": ["contiguous", "transposed", "strided", "expanded", "requires_grad"],
+        "array_dtypes": ["complex64", "complex128", "float32", "float64"],
+        "array_layouts": ["contiguous", "transposed view", "2-D", "4-D"],
+        "entry_points": ["fourier_shift_expand", "fourier_translation_operator", "ProbePixelated.forward", "forward_operator descan"],
+        "value_sets": VALUE_SETS,
+        "spellings_per_roi": {impl: len(spellings(impl, q)) for impl in ("torch", "numpy")},
+    }
+    before = ctx.tally.n
+    ctx.pmap(w_spelling, list(itertools.product(sp_rois, ["torch", "numpy"])), chunk=1, label="argument spellings of the shifting entry points", seed=ctx.seed, quick=q)
+    ctx.coverage["spellings"] = ctx.tally.n - before
     calls = call_alphabet()
     ctx.coverage["alphabet"]["call_histories"] = {
         "calls": calls,
@@ -1104,7 +1387,9 @@ def replay(ctx, case):
     t = Tally()
     k = case["kind"]
     seed = ctx.seed
-    if k == "call_history":
+    if k == "spelling":
+        judge_spelling(t, tuple(case["roi"]), case["spelling"], seed)
+    elif k == "call_history":
         hist = case["history"]
         alone, failed = run_call_history(Tally(), [hist[-1]], seed) if len(hist) > 1 else (None, ())
         run_call_history(t, hist, seed, alone, failed)
